@@ -19,26 +19,26 @@ import (
 )
 
 type DMatCase struct {
-	K     string      `json:"k"`
-	Fam   string      `json:"fam"`
-	N     int         `json:"n"`
-	Idx   int64       `json:"idx"`
-	A     [][]int64   `json:"a"`
-	Det   int64       `json:"det"`
-	Tri   bool        `json:"tri"`
-	Vars  [][]int     `json:"vars"` // 1-based (row, column)
-	Kap   Rat         `json:"kap"`
-	Inv   [][]Rat     `json:"inv"`
-	Sol   []Rat       `json:"sol"`
-	Ddet  []int64     `json:"ddet"`
-	D2det [][]int64   `json:"d2det"`
-	Dinv  [][][]Rat   `json:"dinv"`
-	D2inv [][][][]Rat `json:"d2inv"`
-	Dsola [][]Rat     `json:"dsola"`
-	B     [][]int64   `json:"b"`
-	C     [][]int64   `json:"c"`
-	Dca   [][][]int64 `json:"dca"`
-	Dcb   [][][]int64 `json:"dcb"`
+	K     string        `json:"k"`
+	Fam   string        `json:"fam"`
+	N     int           `json:"n"`
+	Idx   int64         `json:"idx"`
+	A     [][]int64     `json:"a"`
+	Det   int64         `json:"det"`
+	Tri   bool          `json:"tri"`
+	Vars  [][]int       `json:"vars"` // 1-based (row, column)
+	Kap   Rat           `json:"kap"`
+	Inv   [][]Rat       `json:"inv"`
+	Sol   []Rat         `json:"sol"`
+	Ddet  []int64       `json:"ddet"`
+	D2det [][]int64     `json:"d2det"`
+	Dinv  [][][]Rat     `json:"dinv"`
+	D2inv [][][][]Rat   `json:"d2inv"`
+	Dsola [][]Rat       `json:"dsola"`
+	B     [][]int64     `json:"b"`
+	C     [][]int64     `json:"c"`
+	Dca   [][][]int64   `json:"dca"`
+	Dcb   [][][]int64   `json:"dcb"`
 	D2c   [][][][]int64 `json:"d2c"`
 }
 
@@ -64,15 +64,15 @@ type PolyTerm struct {
 	E []int64 `json:"e"`
 }
 type PolyCase struct {
-	K    string       `json:"k"`
-	N    int          `json:"n"`
-	Idx  int64        `json:"idx"`
-	F    [][]PolyTerm `json:"f"`
-	X    []Rat        `json:"x"`
-	PStates []string  `json:"pstates"`
-	Val  []Rat        `json:"val"`
-	Jac  [][]Rat      `json:"jac"`
-	Hess [][]Rat      `json:"hess"`
+	K       string       `json:"k"`
+	N       int          `json:"n"`
+	Idx     int64        `json:"idx"`
+	F       [][]PolyTerm `json:"f"`
+	X       []Rat        `json:"x"`
+	PStates []string     `json:"pstates"`
+	Val     []Rat        `json:"val"`
+	Jac     [][]Rat      `json:"jac"`
+	Hess    [][]Rat      `json:"hess"`
 }
 
 var realTypes = []tinfo{allTypes[2], allTypes[3]}
